@@ -6,7 +6,7 @@ CHECKS = {
  # id: (category, technique, text, note, design_ref)
  "C12": ("model_checking",
    "bounded-exhaustive enumeration of pattern × subject × mode against a reference matcher",
-   "Every pattern up to 3 (quick) / 5 (thorough) symbols over the 12-symbol pattern alphabet is run against every subject up to 4 symbols over the 7-symbol subject alphabet in all four modes, plus a fixed block for classes, multi-byte runes, regexp metacharacters and regexp-repetition shapes (a{2}, a{1,}, (a), a|b, ^a$) a bracket-expression family of up to 7 symbols (negation, leading ']', ≤ 3 members, context) and all ordered pairs of short patterns; each call is compared with an independent backtracking matcher. Complete within the stated alphabet and bounds, nothing sampled.",
+   "Every pattern up to 3 (quick) / 5 (thorough) symbols over the 12-symbol pattern alphabet is run against every subject up to 4 symbols over the 7-symbol subject alphabet in all four modes, plus a fixed block for classes, multi-byte runes, regexp metacharacters and regexp-repetition shapes (a{2}, a{1,}, (a), a|b, ^a$) a bracket-expression family of up to 7 symbols (negation, leading ']', ≤ 3 members, context) and all ordered pairs of short patterns (for a list the result must be the shortest/longest portion for at least one of its patterns taken alone); each call is compared with an independent backtracking matcher. Complete within the stated alphabet and bounds, nothing sampled.",
    "Trusts the reference matcher (patmodel.go); patterns POSIX leaves undefined may fail or agree with the model; longer patterns / other characters are outside the bound.",
    "DESIGN.md §6 C12, §4.3"),
  "C14": ("model_checking",
@@ -21,12 +21,12 @@ CHECKS = {
    "DESIGN.md §6 C11, §4.4"),
  "C13": ("model_checking",
    "bounded-exhaustive enumeration of the parameter-expansion product against a table-driven reference model",
-   "The complete product of 10 parameter kinds × every operator form × word/pattern menus × 4 positions × 8 variable states × 6 positional lists × nounset × 4 IFS settings (≈1.6 M cases) is parsed by the real parser, expanded by the real Expand and compared (fields, error type, variable store, positional parameters read back unchanged) with an independent model of the POSIX table, $@/$*, nounset and the C14 splitter.",
+   "The complete product of 10 parameter kinds × every operator form × word/pattern menus × 6 positions × 8 variable states × 6 positional lists × nounset × 4 IFS settings (≈1.6 M cases) is parsed by the real parser, expanded by the real Expand and compared (fields, error type, variable store, positional parameters read back unchanged) with an independent model of the POSIX table, $@/$*, nounset and the C14 splitter; plus histories on ONE environment: every sequence of ≤ 3 steps (IFS kept, set to one of 4 values or unset, then one of 8 words around $* and $@) for two positional lists, each step compared with the table.",
    "Trusts xpmodel.go; constructs POSIX leaves open ($- empty, ${#@}, $@/$* without positionals under non-colon operators, removal on $*, quoted word of := outside quotes) are only required not to panic; values and words outside the menus are not explored.",
    "DESIGN.md §6 C13, §4.2"),
  "C15": ("model_checking",
    "bounded-exhaustive enumeration of strings × quoting styles × modes × environments with an intrinsic oracle",
-   "Every string of up to 4 (quick) / 5 (thorough) characters over 20 shell-significant characters (incl. / . CR TAB) is written under single, double, backslash and mixed quoting, parsed by the real parser and expanded under all 6 ExpModes in 5 adversarial environments (IFS from the alphabet, HOME, positional parameters, a scratch working directory holding files named like the strings); the result must be exactly one field equal to the string, in Pattern mode a pattern whose elements are all literal and which, given to pattern.Match, matches the string itself and none of its neighbours (also for every string of ≤ 5 characters over three families of regexp metacharacters).",
+   "Every string of up to 4 (quick) / 5 (thorough) characters over 20 shell-significant characters (incl. / . CR TAB) is written under single, double, backslash and mixed quoting, parsed by the real parser and expanded under all 6 ExpModes in 5 adversarial environments (IFS from the alphabet, HOME, positional parameters, a scratch working directory holding files named like the strings); the result must be exactly one field equal to the string, in Pattern mode a pattern whose elements are all literal and which, given to pattern.Match, matches the string itself and none of its neighbours (also for every string of ≤ 5 characters over three families of regexp metacharacters); every string of ≤ 3 characters also as the quoted word of ${u:-…}, ${u-…} and ${a:+…} outside double quotes.",
    "Backslash-newline excluded from the backslash style; Pattern mode judged by the pattern model of C12; longer strings / other characters outside the bound.",
    "DESIGN.md §6 C15"),
  "C16": ("model_checking",
@@ -36,7 +36,7 @@ CHECKS = {
    "DESIGN.md §6 C16, §4.3"),
  "C20": ("model_checking",
    "explicit-state BFS over operation histories of the real ExecEnv against a map model",
-   "Breadth-first search to depth 4 (quick) / 6 (thorough) from 8 initial environments over an alphabet of ≈ 245 Set/Unset/Expand/Eval operations (Eval incl. short-circuit forms whose skipped operand assigns or faults; Expand incl. 30 composite forms ${a op INNER} whose word assigns, fails or does neither, 6 words in which the assigning expansion is surrounded by other text, removal operators whose pattern assigns, tilde words with HOME set/unset); many-variable histories (1-24 names); second phase without state merging: every history of ≤ 4 (thorough 5) operations over a reduced alphabet in which the observation is itself an operation on ordinary, special and positional names; every operation is applied in every distinct reachable store state (successor = replay of the shortest history on a fresh instance + 1 operation); after every transition Walk, Get of 17 names, Args, Opts, Aliases and the AST passed in are compared with a plain map model.",
+   "Breadth-first search to depth 4 (quick) / 6 (thorough) from 8 initial environments over an alphabet of ≈ 250 Set/Unset/Expand/Eval operations (arithmetic expansions that read $1, $2, ${10}, $# with numeric and non-numeric positionals; Eval incl. short-circuit forms whose skipped operand assigns or faults; Expand incl. 30 composite forms ${a op INNER} whose word assigns, fails or does neither, 6 words in which the assigning expansion is surrounded by other text, removal operators whose pattern assigns, tilde words with HOME set/unset); many-variable histories (1-24 names); second phase without state merging: every history of ≤ 4 (thorough 5) operations over a reduced alphabet in which the observation is itself an operation on ordinary, special and positional names; every operation is applied in every distinct reachable store state (successor = replay of the shortest history on a fresh instance + 1 operation); after every transition Walk, Get of 17 names, Args, Opts, Aliases and the AST passed in are compared with a plain map model.",
    "Trusts the map model; canonical state drops Export/ReadOnly (no operation of the alphabet observes them); process environment cleared so NewExecEnv starts from {IFS}.",
    "DESIGN.md §6 C20, §2 E3"),
  "C02": ("model_checking",
@@ -57,7 +57,7 @@ CHECKS = {
  "C06": ("model_checking",
    "stateless model checking of the implementation: controlled scheduler + DFS over all interleavings of the hooked lexer/parser goroutine operations",
    "go.sh is built with -tags verif; every synchronisation operation between the parser and its lexer goroutines (token hand-off including both outcomes of an ambiguous select, cancel, here-document queue, nested lexer join, error slots, return of the call) is a point owned by a cooperative scheduler. For every ParseCommands input of ≤ 3 (quick) / 4 (thorough) pieces over a 15-piece alphabet (incl. a numbered here-document whose delimiter never comes), 15 longer inputs (preemption bound ≤ 2), the generator's lists of leaf commands and default-filled compounds with each single-symbol deletion (preemption bound ≤ 1), every input of ≤ 2 (thorough 3) pieces plus 14 nested-substitution inputs with the reader failing from / once at every rune index, and every Eval input of ≤ 4 / 5 tokens over a 12-token alphabet plus 23 longer ones (faults met while the lexer is about to reject a later character, short-circuit operands), ALL schedules are enumerated (≈ 7·10^4 executions, 8·10^5 transitions in the quick tier): one result per input, no deadlock, nothing alive or active after the return. Schedules are replayed for determinism; a free-running pass (GOMAXPROCS 1/2/16) must only produce explored results, and the same bodies run under the race detector, which also runs 484 ordered pairs of calls concurrently (results equal to the solo results; shared package-level state shows as a race).",
-   "The controller owns the hooked operations only: unhooked unsynchronised accesses and memory-model effects are seen by the supplementary -race pass alone; executions per input are capped (20 000 / 200 000).",
+   "The controller owns the hooked operations only: unhooked unsynchronised accesses and memory-model effects are seen by the supplementary -race pass alone, synchronisation added next to a hooked operation by the delay runs (every parse and reader-fault body once per hooked point, free-running with the goroutine that reaches the point held back until the others can go no further: the observation must be one the exploration produced, and a delivered fault must not end in a nil error); executions per input are capped (20 000 / 200 000).",
    "DESIGN.md §6 C06, §2 E2, §3"),
  "C07": ("model_checking",
    "explicit-state search over command streams (state = reader offset, transition = one ParseCommands call)",
@@ -66,12 +66,12 @@ CHECKS = {
    "DESIGN.md §6 C07, §2 E3"),
  "C08": ("model_checking",
    "stateless model checking of the implementation (controlled scheduler + DFS) over a bounded-exhaustive space of here-document programs",
-   "45 host templates with 1-3 here-document sites (simple command, pipes, lists, every compound form, function bodies, compound redirections, inside $( ) and backquotes, before && / | + newline, numbered, several on one or on different lines) × {<<, <<- with 0-3 tabs before the delimiter line} × 6 delimiter quotings (E, 'E', \"E\", E\\F, E\"\", ''E) × bodies from a 17-line menu (empty lines, delimiter look-alikes, tab-indented lines, $v, $(c), `c`, backslashes, lines ending in the delimiter text after an expansion): ≈ 5·10^4 programs in the quick tier, each run under ALL schedules of the lexer/parser pair (one site) or all schedules with ≤ 1 preemption (more sites, which contains both extreme schedules). Per redirection, in operator order: the printed body is byte-identical to the body written, Delim is the delimiter line, the body is split into expansions iff no part of the delimiter was quoted; the same under every schedule; no deadlock on the here-document queue. Many-site programs (4-12 here-documents on one line, per group line, per pipeline stage). Second phase: every generator sentence that carries a here-document (D0, D1, DH; thorough D2, DC) in one-line and multi-line layout under all schedules with ≤ 1 preemption, judged against the grammar model's AST.",
+   "51 host templates with 1-3 here-document sites (simple command, pipes, lists, every compound form, function bodies, compound redirections, inside $( ) and backquotes, before && / | + newline, numbered, several on one or on different lines, several pending at a newline inside a grammar linebreak) × {<<, <<- with 0-3 tabs before the delimiter line} × 6 delimiter quotings (E, 'E', \"E\", E\\F, E\"\", ''E) × bodies from a 17-line menu (empty lines, delimiter look-alikes, tab-indented lines, $v, $(c), `c`, backslashes, lines ending in the delimiter text after an expansion): ≈ 5·10^4 programs in the quick tier, each run under ALL schedules of the lexer/parser pair (one site) or all schedules with ≤ 1 preemption (more sites, which contains both extreme schedules). Per redirection, in operator order: the printed body is byte-identical to the body written, Delim is the delimiter line, the body is split into expansions iff no part of the delimiter was quoted; the same under every schedule; no deadlock on the here-document queue. Many-site programs (4-12 here-documents on one line, per group line, per pipeline stage). Second phase: every generator sentence that carries a here-document (D0, D1, DH; thorough D2, DC) in one-line and multi-line layout under all schedules with ≤ 1 preemption, judged against the grammar model's AST.",
    "Backslash-newline inside bodies is outside the alphabet; scheduler assumptions as for C06.",
    "DESIGN.md §6 C08, §2 E2"),
  "C09": ("model_checking",
    "bounded-exhaustive enumeration of sentences × token boundaries × layout changes with a metamorphic oracle",
-   "Every accepted sentence among all strings of ≤ 3 (quick) / 4 (thorough) symbols over a 44-symbol alphabet and the derivation sets D0, D1, DH and the word menu (thorough: D2), each in one-line and multi-line layout, is varied at every token boundary, including the boundaries inside '2>' and '<<E': two blanks, tab, no blank where the tokens stay the same, backslash-newline in three forms, leading/trailing blank, comment before a newline or at end of input, newline for ';' and extra newline where the grammar model admits them. Every single application must parse to the same program and return the inserted comment exactly once, in order.",
+   "Every accepted sentence among all strings of ≤ 3 (quick) / 4 (thorough) symbols over a 44-symbol alphabet and the derivation sets D0, D1, DH and the word menu (thorough: D2), each in one-line and multi-line layout, is varied at every token boundary, including the boundaries inside '2>' and '<<E': two blanks, tab, no blank where the tokens stay the same, backslash-newline in three forms, leading/trailing blank, comment before a newline or at end of input (text k, and a text made of ` ' \" ) k \\; inside multi-line substitutions 8 texts with quote and bracket characters), newline for ';' and extra newline where the grammar model admits them. Every single application must parse to the same program and return the inserted comment exactly once, in order.",
    "The untransformed parse is the oracle; the grammar model only decides where a change is admissible; pairs of changes are not explored.",
    "DESIGN.md §6 C09"),
  "C10": ("fault_enumeration",
@@ -81,12 +81,12 @@ CHECKS = {
    "DESIGN.md §6 C10, §2 E4"),
  "C17": ("model_checking",
    "bounded-exhaustive enumeration of alias tables × symbol strings against a reference replacement",
-   "Every alias table with ≤ 2 entries (thorough: ≤ 3) over 3 names and a 25-value menu (the reference replacement descends into $( ) and backquote tokens of values) (chains, cycles, self reference, trailing blanks, operators, reserved words, assignments, redirections, quoted names, values holding two commands that are aliases, values containing $( ), backquote, $(( )) and ${ } expansions) plus 8 fixed three-entry chains and 140 three-entry tables whose outer value holds several commands that are aliases × every string of ≤ 3 (thorough: ≤ 4) symbols over a 13-symbol alphabet: the reference model performs the textual replacement on the symbol string (command-name positions from the grammar model, recursion guard, trailing-blank rule, cross-checked against bash and dash), the unfolded text is parsed by the real parser without aliases and must give the same position-free AST; every run terminates. Also: command substitutions in the source ($( ), backquotes, inside double quotes and ${v:-…}) holding every command list of ≤ 2 symbols over {x y a ; | 'x'} and 5 compound forms, for every table of ≤ 2 entries; and, at text level, one alias whose value is every string of ≤ 3 (thorough 4) characters over 19 significant characters × 6 continuations of the source (alias names x, x-1, .., 2x, ,x, x+), compared with the parse of the text in which the word is replaced.",
+   "Every alias table with ≤ 2 entries (thorough: ≤ 3) over 3 names and a 25-value menu (the reference replacement descends into $( ) and backquote tokens of values) (chains, cycles, self reference, trailing blanks, operators, reserved words, assignments, redirections, quoted names, values holding two commands that are aliases, values containing $( ), backquote, $(( )) and ${ } expansions) plus 8 fixed three-entry chains and 140 three-entry tables whose outer value holds several commands that are aliases × every string of ≤ 3 (thorough: ≤ 4) symbols over a 13-symbol alphabet: the reference model performs the textual replacement on the symbol string (command-name positions from the grammar model, recursion guard, trailing-blank rule, cross-checked against bash and dash), the unfolded text is parsed by the real parser without aliases and must give the same position-free AST; 12 compound sentences with alias names at every kind of position (case patterns, for words, redirection targets, function names, after then/do/else) × 28 tables; every run terminates. Also: command substitutions in the source ($( ), backquotes, inside double quotes and ${v:-…}) holding every command list of ≤ 2 symbols over {x y a ; | 'x'} and 5 compound forms, for every table of ≤ 2 entries; and, at text level, one alias whose value is every string of ≤ 3 (thorough 4) characters over 19 significant characters × 6 continuations of the source (alias names x, x-1, .., 2x, ,x, x+), compared with the parse of the text in which the word is replaced.",
    "Only the substitution is modelled, the unfolded text goes through the real parser; alias values with newlines are covered for termination only (C01).",
    "DESIGN.md §6 C17"),
  "C01": ("model_checking",
    "bounded-exhaustive enumeration of sources × source kinds × alias tables × GODEBUG settings in crash-isolated worker processes",
-   "Every symbol string of the tier's alphabets/bounds and every character string of ≤ 5 (quick) / 6 (thorough) characters over the 14 significant shell characters is parsed by ParseCommands and ParseCommand from a string, a []byte, a one-byte io.Reader, a bufio.Reader and a custom RuneScanner, the shorter ones also under 7 adversarial alias tables, plus 32 constructs repeated or nested n = 1…24 (thorough 64) times, plus every alias value of ≤ 3 (thorough 4) characters over 17 significant characters in 3 tables × 7 sources, all under GODEBUG=panicnil=0 and =1 (≈ 5·10^7 calls in the quick tier). Each case runs in a GOMAXPROCS=1 worker subprocess that announces the case first, so a crash from a background goroutine, the runtime's deadlock abort or a stalled worker is attributed to it; the result must be commands and/or an error. Schedule phase (workers built with -tags verif): for ≈ 150 sources (every here-document template of C08, every construct repeated or nested once and twice, inputs ending inside a here-document, substitution or quote) the controlled scheduler explores every interleaving of the lexer and parser goroutines with ≤ 1 (thorough 2) preemptions; under each the call must return (no state in which the caller has not returned and no goroutine is enabled).",
+   "Every symbol string of the tier's alphabets/bounds and every character string of ≤ 5 (quick) / 6 (thorough) characters over the 14 significant shell characters is parsed by ParseCommands and ParseCommand from a string, a []byte, a one-byte io.Reader, a bufio.Reader and a custom RuneScanner, the shorter ones also under 7 adversarial alias tables, plus 32 constructs repeated or nested n = 1…24 (thorough 64) times, plus every alias value of ≤ 3 (thorough 4) characters over 17 significant characters in 3 tables × 7 sources, all under GODEBUG=panicnil=0 and =1 (≈ 5·10^7 calls in the quick tier). Each case runs in a GOMAXPROCS=1 worker subprocess that announces the case first, so a crash from a background goroutine, the runtime's deadlock abort or a stalled worker is attributed to it; the result must be commands and/or an error. Schedule phase (workers built with -tags verif): for ≈ 150 sources (every here-document template of C08, every construct repeated or nested once and twice, inputs ending inside a here-document, substitution or quote) the controlled scheduler explores every interleaving of the lexer and parser goroutines with ≤ 1 (thorough 2) preemptions; under each the call must return (no state in which the caller has not returned and no goroutine is enabled), and so must every delay run (one free run per hooked point with that goroutine held back).",
    "Main phase free-running: one OS-chosen schedule per case; the schedule phase checks termination only (results under every schedule are C06's and C08's subject); a hang is detected by the Go runtime's deadlock detector or a 120 s no-progress watchdog; unbounded random programs are not explored.",
    "DESIGN.md §6 C01"),
  "C05": ("model_checking",
@@ -101,7 +101,7 @@ CHECKS = {
    "DESIGN.md §6 C18"),
  "C19": ("model_checking",
    "bounded-exhaustive enumeration of inputs per entry point in crash-isolated worker processes",
-   "Every AST the parser returns for the C01 corpora and for the derivation sets (D0-D2, DH, DC, word menu, generated word space WG at 5 positions; two layouts) is measured (Pos/End of every node), printed under 16 (quick) / 256 Configs and every distinct word in it expanded under all 32 combinations of the mode flags; every token string of ≤ 4 / 5 tokens over a 20-token alphabet goes through Eval, every pattern of ≤ 4 / 5 characters over 12 pattern characters through Match (6 subjects, mode combinations) and over 9 characters through Glob; all 2^14 Option values; the repetition family (45 constructs × n = 1…24); nesting depths 1-40 × 12 indentation styles; all under GODEBUG=panicnil=0 and =1. No panic, no process death, only documented error types.",
+   "Every AST the parser returns for the C01 corpora and for the derivation sets (D0-D2, DH, DC, word menu, generated word space WG at 5 positions; two layouts) is measured (Pos/End of every node), printed under 16 (quick) / 256 Configs and every distinct word in it (incl. \"$@\" as the word of an operator with no positional parameters) expanded under all 32 combinations of the mode flags; every token string of ≤ 4 / 5 tokens over a 20-token alphabet goes through Eval, every pattern of ≤ 4 / 5 characters over 12 pattern characters through Match (6 subjects, mode combinations) and over 9 characters through Glob; all 2^14 Option values; the repetition family (45 constructs × n = 1…24); nesting depths 1-40 × 12 indentation styles; all under GODEBUG=panicnil=0 and =1. No panic, no process death, only documented error types.",
    "Oracle is 'terminates without panic, documented error types'; values are C11-C16's subject.",
    "DESIGN.md §6 C19"),
 }
